@@ -36,6 +36,7 @@ type Op struct {
 	Purge   *purgeOp   `json:"purge,omitempty"`
 	Jail    *jailOp    `json:"jail,omitempty"`
 	Publish *publishOp `json:"publish,omitempty"`
+	Light   *lightOp   `json:"light,omitempty"` // lightnode: lightnode_test.go
 }
 
 // id: the stable identity of the operation's shape (used in violation ids).
@@ -55,6 +56,10 @@ func (o Op) id() string {
 			return "metrix:attested"
 		}
 		return "metrix:purge"
+	case "lightnode":
+		if o.Light != nil {
+			return "lightnode:" + o.Light.Act
+		}
 	}
 	return o.Kind
 }
@@ -66,6 +71,7 @@ type world struct {
 	pms    palomatypes.MsgServer
 	stores []storeRef
 	x      *xworld // keepers used by the other operations (ops_test.go)
+	ln     *lnEnv  // light-node licence path on real auth / bank / feegrant (lightnode_test.go)
 }
 
 type storeRef struct {
@@ -80,6 +86,8 @@ func newWorld(t *testing.T) *world {
 	w.pms = palomakeeper.NewMsgServerImpl(*w.pk)
 	w.addStores("paloma", func() sdk.Context { return w.pctx })
 	w.x = newXWorld(t, w)
+	w.ln = newLnEnv()
+	w.addStores("lightnode", func() sdk.Context { return w.ln.ctx })
 	return w
 }
 
@@ -170,6 +178,8 @@ func (w *world) apply(op Op) (string, string) {
 			}
 			return errClass(err), ""
 		})
+	case "lightnode":
+		return w.ln.apply(op.Light)
 	default:
 		return w.x.apply(op)
 	}
@@ -189,6 +199,15 @@ func (w *world) extraReads(op Op) {
 			w.apply(op) // never written back
 		}
 	}()
+	if op.Kind == "lightnode" {
+		func() {
+			defer func() { _ = recover() }()
+			saved := w.ln.ctx
+			w.ln.ctx, _ = saved.CacheContext()
+			defer func() { w.ln.ctx = saved }()
+			w.apply(op) // simulated: written to a branch that is dropped
+		}()
+	}
 	w.x.extraReads(op)
 }
 
